@@ -21,8 +21,9 @@ RULE = ("reference tree on 4..12 taxa (rooted or not, binary or multifurcating, 
         "((repeat k T), judged through the proved closed form of the model on the expanded list) on 2..16 threads; 'family' cases: support.MinTransferDist called "
         "directly (absent = false and true) on the eleven reference branches outside H of the pair (((a,b),(c,d)),(e,f),H) / "
         "((H,(c,e)),(a,f),(b,d)) with H a common clade on m = 65537..70000 taxa (also small m); the judge does not rebuild trees "
-        "of that size: it evaluates the definition and the model on the member m = 12 of the family, the distances of these "
-        "branches being independent of m >= 8 (closed form for this family: a test, not a theorem); non-trivial = some inner branch has a support strictly between "
+        "of that size: it evaluates the definition and the model on the member m = 12 of the family; that light sides and "
+        "transfer indexes of these branches are the same for ANY common clade H on >= 8 taxa is proved "
+        "(family_definition, family_in_the_model, family_in_the_model_absent); non-trivial = some inner branch has a support strictly between "
         "0 and 1 (or the collection must be rejected); distinct = distinct case text")
 TRUSTED = ["trees built through NewNode/NewEdge + verif hooks (exact neighbour order); supports read through Edges()/Support()/Right().Tip()",
            "bootstrap trees are fed through a closed buffered channel of tree.Trees as utils.ReadMultiTrees does (no Newick parsing)",
